@@ -39,7 +39,7 @@ fn tilings(r: usize, c: usize) -> Vec<Tiling> {
 
 fn tiling_name(t: &Tiling) -> String { t.iter().map(|(h, ws)| format!("{}x[{}]", h, ws.iter().map(|w| w.to_string()).collect::<Vec<_>>().join("+"))).collect::<Vec<_>>().join("/") }
 
-fn elem(k: &str, n: i64) -> CVal { if k == "bool" { sc_b(n % 3 != 0) } else { CVal::S(k.to_string(), small_val(k, n)) } }
+fn elem(k: &str, n: i64) -> CVal { let n = match k { "i8" => (n - 1) % 127 + 1, "u8" => (n - 1) % 255 + 1, _ => n }; if k == "bool" { sc_b(n % 3 != 0) } else { CVal::S(k.to_string(), small_val(k, n)) } }
 
 /// builds the case input: blocks (name -> value), source text, expected matrix (or null for invalid)
 fn build(k: &str, t: &Tiling, rng: &mut Rng, scalar_as_1x1: bool, mutate: Option<&str>) -> Option<(J, String)> {
@@ -83,7 +83,7 @@ fn build(k: &str, t: &Tiling, rng: &mut Rng, scalar_as_1x1: bool, mutate: Option
 
 impl Prop for C11 {
   fn id(&self) -> &'static str { "C11" }
-  fn rule(&self) -> String { "all tilings of results up to 4x4 by 1-4 block rows x 1-4 blocks per row (compositions of heights and widths), each block a scalar, 1x1 matrix, row vector, column vector or matrix as its size dictates, plus larger dynamic ones; x element kinds; blocks are API-bound variables with pairwise distinct contents. Invalid variants: one block one row too tall, one block one column too wide, one block of another kind. The result is compared with reference block placement. Non-trivial = more than one block".into() }
+  fn rule(&self) -> String { "all tilings of results up to 4x4 by 1-4 block rows x 1-4 blocks per row (compositions of heights and widths), each block a scalar, 1x1 matrix, row vector, column vector or matrix as its size dictates, plus larger dynamic ones and literals with 5-8 block rows and/or 5-8 blocks per row (n-ary kernels); x element kinds; blocks are API-bound variables with pairwise distinct contents. Invalid variants: one block one row too tall, one block one column too wide, one block of another kind. The result is compared with reference block placement. Non-trivial = more than one block".into() }
   fn assumptions(&self) -> Vec<String> { vec!["a literal with a single scalar entry [s] may evaluate to the scalar or to a 1x1 matrix".into()] }
   fn floor(&self, tier: Tier) -> usize { if tier == Tier::Quick { 1500 } else { 20000 } }
   fn flavours(&self, tier: Tier) -> Vec<&'static str> { if tier == Tier::Thorough { vec!["chk", "asan"] } else { vec!["chk"] } }
@@ -119,6 +119,23 @@ impl Prop for C11 {
         let nb: usize = t.iter().map(|x| x.1.len()).sum();
         let cell = format!("kind={};size={}x{};blocks={};tiling={};var=ok", k, r, c, nb, tiling_name(&t));
         if let Some((input, _)) = build(k, &t, &mut rng, false, None) { out.push(Case { id: cell.clone(), cell, input }); }
+      }
+      // many blocks: 5-8 block rows and / or 5-8 blocks in a row (the n-ary kernels; 1-4 entries have kernels of their own)
+      let nm = if tier == Tier::Quick { 14 } else { 150 };
+      for i in 0..nm {
+        let mut rng = Rng::keyed(seed, &format!("many{}{}", k, i));
+        let nrows = if i % 3 == 1 { 1 + rng.below(2) as usize } else { 5 + rng.below(4) as usize };
+        let t: Tiling = {
+          let per_row: Vec<usize> = (0..nrows).map(|_| if i % 3 == 0 { 1 + rng.below(2) as usize } else { 5 + rng.below(4) as usize }).collect();
+          let cols = per_row.iter().max().unwrap() + rng.below(4) as usize;
+          per_row.iter().map(|n| { let mut ws = vec![1usize; *n]; for _ in 0..(cols - n) { let j = rng.below(*n as u64) as usize; ws[j] += 1; } (1 + rng.below(3) as usize, ws) }).collect()
+        };
+        let (r, c): (usize, usize) = (t.iter().map(|x| x.0).sum(), t[0].1.iter().sum());
+        let nb: usize = t.iter().map(|x| x.1.len()).sum();
+        let cell = format!("kind={};size={}x{};blocks={};tiling={}", k, r, c, nb, tiling_name(&t));
+        let s1 = rng.chance(1, 3);
+        if let Some((input, _)) = build(k, &t, &mut rng, s1, None) { out.push(Case { id: format!("{};var=ok", cell), cell: format!("{};var=ok", cell), input }); }
+        if rng.chance(1, 3) { let m = *rng.pick(&["height", "width", "kind"]); if let Some((input, _)) = build(k, &t, &mut rng, false, Some(m)) { out.push(Case { id: format!("{};var=bad-{}", cell, m), cell: format!("{};var=bad-{}", cell, m), input }); } }
       }
     }
     out
